@@ -39,7 +39,9 @@ Render(atoms) == IF atoms = <<>> THEN "" ELSE MarkerSrc(Head(atoms)) \o Render(T
 RECURSIVE RepX(_)
 RepX(n) == IF n = 0 THEN "" ELSE "x" \o RepX(n - 1)
 \* pad (optional field): an "Abstract" of that many characters before the other keys -- the size of a metadata block has no bearing on what is stripped or honoured
-MetaText(path, f) == IF f.meta THEN "Title: t\n" \o (IF "cont" \in DOMAIN f THEN "Author: Jane\nDoe and others\nDate: 2020\n" ELSE "") \o (IF "pad" \in DOMAIN f THEN "Abstract: " \o RepX(f.pad) \o "\n" ELSE "") \o (IF f.base # "" THEN "Transclude Base: " \o f.base \o "\n" ELSE "") \o "\n" ELSE ""
+\* first (optional field): the base override is the first (with an empty f.cont etc., the only) key of the block
+MetaText(path, f) == IF f.meta /\ "first" \in DOMAIN f THEN "Transclude Base: " \o f.base \o "\n" \o (IF f.first = 2 THEN "Title: t\n" ELSE "") \o "\n"
+                     ELSE IF f.meta THEN "Title: t\n" \o (IF "cont" \in DOMAIN f THEN "Author: Jane\nDoe and others\nDate: 2020\n" ELSE "") \o (IF "pad" \in DOMAIN f THEN "Abstract: " \o RepX(f.pad) \o "\n" ELSE "") \o (IF f.base # "" THEN "Transclude Base: " \o f.base \o "\n" ELSE "") \o "\n" ELSE ""
 
 \* ---- the machine -----------------------------------------------------------------------------------------------
 \* st = [frames, pstack, manifest, done, out];  frame = [path, search, buf, pos, depth]
